@@ -1,0 +1,1 @@
+//! Verification doors: tunnel (cfg(trusttunnel_verif) only)
